@@ -25,6 +25,7 @@ var props = map[string]func(*check.Ctx) int{
 	"C14": check.C14,
 	"C15": check.C15,
 	"C16": check.C16,
+	"C17": check.C17,
 	"C18": check.C18,
 	"C19": check.C19,
 	"C20": check.C20,
